@@ -280,6 +280,9 @@ func runBounds(c *Ctx) {
 			continue // generated by stringer: its index is guarded by its own range test
 		}
 		rel, _ := filepath.Rel(p.Dir, s.file)
+		if strings.HasPrefix(rel, "..") {
+			continue // a check inside a standard-library generic function instantiated for this package (slices, maps): not this repository's code
+		}
 		pos := fmt.Sprintf("%s:%d", rel, s.line)
 		ins := instrAt[key{s.file, s.line, s.col}]
 		if len(ins) == 0 {
@@ -720,6 +723,35 @@ func (c *Ctx) boundsJustified(in ssa.Instruction, outer []core.Lit) (string, boo
 				if sum, ok := mk.Len.(*ssa.BinOp); ok && sum.Op == token.ADD {
 					if core.Path(sum.X) == core.Path(lo) || core.Path(sum.Y) == core.Path(lo) {
 						return sh, true, "slice made with a length that has the low bound as a summand"
+					}
+				}
+			}
+		}
+		// t[i:], t[:i+1] with i = slices.Index(t, …) found (i >= 0 implies i < len(t))
+		{
+			b := lo
+			if b == nil {
+				b = hi
+			}
+			if bo, ok := b.(*ssa.BinOp); ok && bo.Op == token.ADD {
+				if k, isK := core.ConstInt(bo.Y); isK && k == 1 {
+					b = bo.X
+				}
+			}
+			if cl, ok := c.res(b).(*ssa.Call); ok && len(cl.Common().Args) >= 1 {
+				if pk, fn := core.StdCallee(cl.Common().StaticCallee()); pk == "slices" && (fn == "Index" || fn == "IndexFunc") && (core.Path(cl.Common().Args[0]) == core.Path(x) || c.sameSlice(x, cl.Common().Args[0])) {
+					for _, l0 := range lits {
+						l := core.PositiveOrder(l0)
+						if l.Kind != "cmp" || c.res(l.X) != ssa.Value(cl) {
+							continue
+						}
+						k, ok := core.ConstInt(l.Y)
+						if !ok {
+							continue
+						}
+						if (l.Op == token.EQL && !l.Pol && k == -1) || (l.Op == token.GEQ && l.Pol && k == 0) || (l.Op == token.GTR && l.Pol && k == -1) || (l.Op == token.LSS && !l.Pol && k == 0) {
+							return sh, true, "cut at the position slices.Index found in this very slice (guard: found)"
+						}
 					}
 				}
 			}
